@@ -76,6 +76,9 @@ func c02Case(c *Ctx) *Result {
 	if c.Idx%10 == 3 {
 		fam = "eager" // the server application writes a lot the moment Accept returns
 	}
+	if c.Idx%40 == 27 {
+		fam = "paced" // small paced writes towards an application that pauses: the window closes with nothing in flight
+	}
 	if c.Idx%40 == 11 {
 		fam = "shared" // one application stops reading for minutes; the other sessions of the association go on
 	}
@@ -91,6 +94,9 @@ func c02Case(c *Ctx) *Result {
 	}
 	if fam == "shared" {
 		nsess = 2 + r.Intn(2)
+	}
+	if fam == "paced" {
+		nsess = 1
 	}
 	plans := make([]*SessPlan, nsess)
 	var keys []uint64
@@ -151,6 +157,20 @@ func c02Case(c *Ctx) *Result {
 					p.R[d] = []int{4096}
 				}
 			}
+		}
+		if fam == "paced" {
+			d := r.Intn(2)
+			p.W[d] = nil
+			p.GapMs[d] = nil
+			for k := 0; k < 5000; k++ {
+				p.W[d] = append(p.W[d], 100)
+				p.GapMs[d] = append(p.GapMs[d], 2)
+			}
+			p.W[1-d] = []int{10}
+			p.GapMs[1-d] = nil
+			p.R[d] = []int{65536}
+			// the reader stops after the first bytes until well after the 4096-segment queue is full
+			p.ReadPause[d] = &Pause{AfterBytes: 100, Dur: time.Duration(pick(r, 20, 40)) * time.Second}
 		}
 		if fam == "eager" {
 			p.W[1] = []int{30000 + r.Intn(60000), 1 + r.Intn(3000)}
@@ -263,7 +283,7 @@ func c02Case(c *Ctx) *Result {
 	res.Obs["sessions"] = float64(nsess)
 	faultsHit := res.Obs["datagrams_dropped"] + res.Obs["datagrams_duplicated"] + res.Obs["datagrams_delayed"]
 	res.Shape = shapeHash(fam, nsess, mtuC, mtuS, patClass(env.PatCE), patClass(env.PatSE), fp.hitClass(), faultsHit > 0)
-	res.Trivial = total == 0 || (fam != "window" && fam != "slow" && fam != "eager" && fam != "shared" && faultsHit == 0)
+	res.Trivial = total == 0 || (fam != "window" && fam != "slow" && fam != "eager" && fam != "shared" && fam != "paced" && faultsHit == 0)
 	if timedOut && !isVirtual {
 		res.Verdict, res.Detail = Inconclusive, "real-time watchdog fired"
 		return res
